@@ -2,8 +2,10 @@ package main
 
 import (
 	"fmt"
+	"strings"
 
 	"verif/engine/core"
+	"verif/engine/hook"
 	"verif/engine/peg"
 	"verif/engine/rtapi"
 )
@@ -11,7 +13,7 @@ import (
 func init() {
 	register(&Check{
 		ID: "C09", Level: "exploration", QuickSecs: 170, ThoroughSecs: 1500,
-		Rule:        "grammars S <- body ; A <- ... ; B <- ... where body ranges over all expressions (nested choices and sequences allowed) over {'a','b',\"ab\",'a'i,[ab],[^a],[^b],[b]i,.,A,B} x {?,*,+,&,!} up to N nodes (4; thorough adds every 11th 5-node body), A and B over the leaf-rule bodies {'a', \"ab\", [ab], 'a' 'b', 'a'/'b', [^a], x:'a'{act}, 'b'i}; every single label+action decoration of the body; a two-site family (one leaf rule - class with range, class, literal - inlined at two places next to DIFFERENT neighbours the optimizer merges it with, 4 shapes, inputs over {a,b,c}); a same-name label family (labelled leaf rule inlined next to equally named labels of the enclosing rule, 6 shapes); a wide-choice family (5 alternatives: a mergeable pair at every position among unmergeable ones); a recovery family (leaf rules referenced inside and outside recovery operators and throws, 6 shapes x 4 leaf rules; 18 grammars whose rule R is referenced ONLY from a recovery expression - directly, below an action, behind an optional item - and refers on to a rule nothing else uses); a byte literal family (2 or 3 adjacent one-byte literals taken from multi-byte UTF-8 sequences, AllowInvalidUTF8, inputs over those bytes up to 3); a class merge family (C C C? !. with C = X1 / X2 [/ X3] for every ordered pair - thorough: triple - of 14 mergeable terminals: classes with chars, overlapping ranges sharing a bound, duplicates, i, ^, one-rune literals incl. non-ASCII and i, the EMPTY literal, a leaf rule; inputs over {a,b,c}); a rule graph family (EVERY reference graph over the rules S, A, B, D whose bodies are a leaf, a chain \"c\" X or a recursive choice \"a\" X / \"b\": dead rules referring to live ones, shared recursive rules; x the alternate-entrypoint sets {}, {A}, {D}, {A,B}; quick: a systematic third plus every graph with two non-leaf rules); every subset of {A,B} as -alternate-entrypoints and every usable entrypoint at run time; all inputs over {a,b} up to L=3 (4). Unoptimized build vs -optimize-grammar build (real vs real) and both vs the reference: same success, same consumed prefix, same action invocations (id, pos, text, flat label values) in the same order, same flat value (regrouping of action-less structure is invisible, action-made values are not). Non-trivial = the optimizer changed the emitted grammar (expression count differs) and the input is matched or backtracks. Plus the cross family (cross.go, bodies <= 3 nodes, unoptimized vs -optimize-grammar, with and without R as alternate entrypoint); two-site neighbours that bring ranges of their own.",
+		Rule:        "grammars S <- body ; A <- ... ; B <- ... where body ranges over all expressions (nested choices and sequences allowed) over {'a','b',\"ab\",'a'i,[ab],[^a],[^b],[b]i,.,A,B} x {?,*,+,&,!} up to N nodes (4; thorough adds every 11th 5-node body), A and B over the leaf-rule bodies {'a', \"ab\", [ab], 'a' 'b', 'a'/'b', [^a], x:'a'{act}, 'b'i}; every single label+action decoration of the body; a two-site family (one leaf rule - class with range, class, literal - inlined at two places next to DIFFERENT neighbours the optimizer merges it with, 4 shapes, inputs over {a,b,c}); a same-name label family (labelled leaf rule inlined next to equally named labels of the enclosing rule, 6 shapes); a wide-choice family (5 alternatives: a mergeable pair at every position among unmergeable ones); a recovery family (leaf rules referenced inside and outside recovery operators and throws, 6 shapes x 4 leaf rules; 18 grammars whose rule R is referenced ONLY from a recovery expression - directly, below an action, behind an optional item - and refers on to a rule nothing else uses); a byte literal family (2 or 3 adjacent one-byte literals taken from multi-byte UTF-8 sequences, AllowInvalidUTF8, inputs over those bytes up to 3); a class merge family (C C C? !. with C = X1 / X2 [/ X3] for every ordered pair - thorough: triple - of 14 mergeable terminals: classes with chars, overlapping ranges sharing a bound, duplicates, i, ^, one-rune literals incl. non-ASCII and i, the EMPTY literal, a leaf rule; inputs over {a,b,c}); a rule graph family (EVERY reference graph over the rules S, A, B, D whose bodies are a leaf, a chain \"c\" X or a recursive choice \"a\" X / \"b\": dead rules referring to live ones, shared recursive rules; x the alternate-entrypoint sets {}, {A}, {D}, {A,B}; quick: a systematic third plus every graph with two non-leaf rules); every subset of {A,B} as -alternate-entrypoints and every usable entrypoint at run time; all inputs over {a,b} up to L=3 (4). Unoptimized build vs -optimize-grammar build (real vs real) and both vs the reference: same success, same consumed prefix, same action invocations (id, pos, text, flat label values) in the same order, same flat value (regrouping of action-less structure is invisible, action-made values are not). Non-trivial = the optimizer changed the emitted grammar (expression count differs) and the input is matched or backtracks. Plus the cross family (cross.go, bodies <= 3 nodes, unoptimized vs -optimize-grammar, with and without R as alternate entrypoint); two-site neighbours that bring ranges of their own. Plus a command line family: 5 entrypoint lists written in 3 other ways (the flag repeated per name, mixed, = form) through the real main() must print the file the one comma list gives.",
 		Assumptions: []string{"E1 loader", "flat value rendering: concatenated matched bytes, action-made values kept"},
 		Run:         runC09,
 	})
@@ -36,6 +38,45 @@ func runC09(c *ShardCtx) {
 	idx := 0
 	allowInvalid := false
 	noShard := false
+	// command line: the entrypoint lists reach the optimizer through main()'s flag handling. Every
+	// way of writing a list of 2 or 3 names - one comma list, the flag repeated per name, a repeated
+	// flag with a comma list, either order - must print the file that the same names give as ONE
+	// comma list (the documented form), and rules named anywhere in it must stay entrypoints
+	if c.Shard == 0 {
+		text := "{\npackage p\n}\nS <- A B C 'x'\nA <- 'a'\nB <- [bc]\nC <- 'c' / 'd'\nD <- 'unused'\n"
+		call := func(argv []string) *hook.Resp {
+			r, err := c.W.Srv.Call(&hook.Req{Mode: "main", Text: []byte(text), Argv: argv})
+			if err != nil {
+				panic(&core.HarnessError{Msg: err.Error()})
+			}
+			return r
+		}
+		for _, names := range [][]string{{"A", "B"}, {"B", "A"}, {"A", "D"}, {"A", "B", "C"}, {"D", "C", "A"}} {
+			want := call([]string{"-optimize-grammar", "-alternate-entrypoints", strings.Join(names, ",")})
+			var forms [][]string
+			rep := []string{"-optimize-grammar"}
+			for _, nm := range names {
+				rep = append(rep, "-alternate-entrypoints", nm)
+			}
+			forms = append(forms, rep)
+			forms = append(forms, []string{"-alternate-entrypoints", names[0], "-optimize-grammar", "-alternate-entrypoints", strings.Join(names[1:], ",")})
+			forms = append(forms, []string{"-alternate-entrypoints=" + strings.Join(names[:len(names)-1], ","), "-alternate-entrypoints=" + names[len(names)-1], "-optimize-grammar"})
+			for _, argv := range forms {
+				got := call(argv)
+				c.Res.Evaluations++
+				c.Res.Counters["command_line_forms"]++
+				if got.Exit != want.Exit || string(got.Stdout) != string(want.Stdout) {
+					miss := ""
+					for _, nm := range names {
+						if !strings.Contains(string(got.Stdout), "name: \""+nm+"\"") {
+							miss += " " + nm
+						}
+					}
+					c.Report(Violation{Desc: fmt.Sprintf("pigeon %s prints another file (exit %d) than pigeon -optimize-grammar -alternate-entrypoints %s (exit %d); rules missing from the optimized parser:%s", strings.Join(argv, " "), got.Exit, strings.Join(names, ","), want.Exit, miss), Grammar: text, Gen: strings.Join(argv, " ")}, "")
+				}
+			}
+		}
+	}
 	one := func(g *peg.Grammar, alts [][]string) {
 		if !noShard {
 			idx++
